@@ -7,6 +7,7 @@ package turn
 // and an end-to-end Allocate through a real server.
 
 import (
+	"crypto/md5"
 	"fmt"
 	"net"
 	"testing"
@@ -30,10 +31,17 @@ func h7Ask(vt *vhT, kind string, h AuthHandler, username, realm string) (string,
 	return uid, key, ok
 }
 
+// h7Key is the long-term key of RFC 5389 section 15.4, MD5(username ":" realm ":" password), computed here
+// independently of the library's GenerateAuthKey (which the handlers under test use)
+func h7Key(username, realm, password string) []byte {
+	sum := md5.Sum([]byte(username + ":" + realm + ":" + password)) //nolint:gosec
+	return sum[:]
+}
+
 // signed reports whether a request signed with (username, realm, password) verifies under key
 func h7Verifies(username, realm, password string, key []byte) bool {
 	m, err := stun.Build(stun.TransactionID, stun.BindingRequest, stun.NewUsername(username), stun.NewRealm(realm),
-		stun.MessageIntegrity(GenerateAuthKey(username, realm, password)))
+		stun.MessageIntegrity(h7Key(username, realm, password)))
 	if err != nil {
 		return false
 	}
@@ -43,10 +51,10 @@ func h7Verifies(username, realm, password string, key []byte) bool {
 func TestVerifH7(t *testing.T) {
 	vt := vhOpen("h7")
 	defer vt.Close()
-	rng := vt.Rng
 	secrets := []string{"s3cret", "another-secret", ""}
-	realms := []string{"pion.ly", "r"}
-	users := []string{"alice", "bob:x", "", "a:b:c"}
+	realms := []string{"pion.ly", "r", "100%pion.ly", "r %d"}
+	users := []string{"alice", "bob:x", "", "a:b:c", "50%off", "bob%", "%s%v", "al ice\t", "z\u00e9"}
+	pick := 0
 	durs := []time.Duration{-5 * time.Second, 0, time.Second, 10 * time.Second, 90 * time.Minute, 1500 * time.Millisecond}
 	mutChars := []byte("0123456789:-+ _aZ")
 	for _, rest := range []bool{false, true} {
@@ -56,8 +64,10 @@ func TestVerifH7(t *testing.T) {
 		}
 		for _, secret := range secrets {
 			for _, d := range durs {
-				user := users[rng.Intn(len(users))]
-				realm := realms[rng.Intn(len(realms))]
+				// every user name and every realm is used (deterministic rotation; the rng only perturbs the start)
+				pick++
+				user := users[(pick+int(vt.Seed))%len(users)]
+				realm := realms[(pick/2+int(vt.Seed))%len(realms)]
 				synctest.Test(t, func(t *testing.T) {
 					var username, password string
 					var h AuthHandler
@@ -168,7 +178,7 @@ func TestVerifH7(t *testing.T) {
 			nonce, _ := w.srv.nonceHash.Generate()
 			m, _ := stun.Build(stun.NewTransactionIDSetter(tidOf(tid)), stun.NewType(stun.MethodAllocate, stun.ClassRequest),
 				rawAttr{stun.AttrRequestedTransport, []byte{17, 0, 0, 0}}, stun.NewUsername(username), stun.NewRealm(w.realm), stun.NewNonce(nonce),
-				stun.MessageIntegrity(GenerateAuthKey(username, w.realm, pass)))
+				stun.MessageIntegrity(h7Key(username, w.realm, pass)))
 			c.sendRaw(m.Raw)
 			outs := w.collect()
 			for _, o := range outs {
